@@ -168,6 +168,7 @@ def check_take(R, drv, tier, want=("position", "panic")):
 
 
 def _account(R, I, kernel):
+    R.cov["interpreter_feasibility_queries"] = R.cov.get("interpreter_feasibility_queries", 0) + I.stats["solver_calls"]
     R.cov["states"] = R.cov.get("states", 0) + I.stats["paths"]
     R.cov["transitions"] = R.cov.get("transitions", 0) + I.stats["branches"]
     R.cov["solver_time_s"] += I.stats["solver_s"]
@@ -468,3 +469,143 @@ def check_target(R, drv, tier):
     R.sample({"kernel": "K-target", "exits": len(I.exits), "property": "accepted <=> the string is one of the 13 documented names, and each maps to its dialect; input string unconstrained (all strings)",
               "wall_s": round(time.time() - t0, 2)})
     core.log(f"[K-target] {len(I.exits)} exits in {time.time()-t0:.1f}s")
+
+
+def check_roll(R, drv, tier, want=("spec", "panic")):
+    """K-roll: (kind, start, end) chosen by the `window` transform from rows / range / rolling / expanding"""
+    t0 = time.time()
+    try:
+        I, exits, tup_loc = kernels.k_roll()
+    except Inconclusive as e:
+        R.engine_error(f"K-roll: {e}")
+        return
+    _account(R, I, "K-roll")
+    from models import is_variant
+    exp, rol = z3.Bool("expanding"), z3.BitVec("rolling", 64)
+    v_ = lambda n: z3.BitVec(n, 64)
+
+    def given(tag):
+        # the std defaults are the empty sentinel 0..-1: a range counts as given unless both bounds are present and start > end
+        return z3.Not(z3.And(v_(f"{tag}_s_d") == 1, v_(f"{tag}_e_d") == 1, v_(f"{tag}_sv") > v_(f"{tag}_ev")))
+
+    def opt_is(o, present, val):
+        if 1 in o.pay and 0 in o.pay[1]:
+            return z3.If(present, z3.And(is_variant(o, 1), o.pay[1][0].t == val), is_variant(o, 0))
+        return z3.And(z3.Not(present), is_variant(o, 0))
+    WK = VARIANTS["WindowKind"]
+    ends = [e for e in exits if e.kind == "slice_end"]
+    panics = [e for e in exits if e.kind == "panic"]
+    if not ends:
+        R.engine_error("K-roll: vacuous - no normal exit")
+    for e in ends:
+        if "spec" not in want:
+            break
+        tup = e.value[tup_loc]
+        kind, st_, en_ = tup.f[0], tup.f[1], tup.f[2]
+        T_, F_ = z3.BoolVal(True), z3.BoolVal(False)
+        rows_spec = z3.And(is_variant(kind, WK.index("Rows")), opt_is(st_, v_("rows_s_d") == 1, v_("rows_sv")), opt_is(en_, v_("rows_e_d") == 1, v_("rows_ev")))
+        range_spec = z3.And(is_variant(kind, WK.index("Range")), opt_is(st_, v_("range_s_d") == 1, v_("range_sv")), opt_is(en_, v_("range_e_d") == 1, v_("range_ev")))
+        spec = z3.If(exp, z3.And(is_variant(kind, WK.index("Rows")), opt_is(st_, F_, 0), opt_is(en_, T_, 0)),
+                     z3.If(rol > 0, z3.And(is_variant(kind, WK.index("Rows")), opt_is(st_, T_, 1 - rol), opt_is(en_, T_, 0)),
+                           z3.If(given("rows"), rows_spec, z3.If(given("range"), range_spec,
+                                                                   z3.And(is_variant(kind, WK.index("Rows")), opt_is(st_, F_, 0), opt_is(en_, F_, 0))))))
+        vd, model, dt = check(e.pc, z3.Not(spec))
+        R.q(vd, dt)
+        if vd == "unknown":
+            R.engine_error("K-roll: unknown")
+        if vd != "sat":
+            continue
+        g = lambda t: bv_to_py(model, t)
+        is_exp = z3.is_true(model.eval(exp, model_completion=True))
+        rl = g(rol)
+
+        def rng(tag):
+            s = g(v_(f"{tag}_sv")) if g(v_(f"{tag}_s_d")) == 1 else None
+            en = g(v_(f"{tag}_ev")) if g(v_(f"{tag}_e_d")) == 1 else None
+            return s, en
+        rows, rang = rng("rows"), rng("range")
+        args = []
+        if is_exp:
+            args.append("expanding:true")
+        if rl != 0:
+            args.append(f"rolling:{rl}" if rl >= 0 else f"rolling:({rl})")
+        sentinel = lambda r: r[0] is not None and r[1] is not None and r[0] > r[1]
+        if not sentinel(rows):
+            args.append("rows:" + _rng_txt(*rows) if not (rows[0] is None and rows[1] is not None) else "rows:.." + (str(rows[1]) if rows[1] >= 0 else f"({rows[1]})"))
+        if not sentinel(rang):
+            args.append("range:" + _rng_txt(*rang) if not (rang[0] is None and rang[1] is not None) else "range:.." + (str(rang[1]) if rang[1] >= 0 else f"({rang[1]})"))
+        prql = f"from t\nselect {{a, b}}\nsort a\nwindow {' '.join(args)} (\n  derive {{w = sum b}}\n)\n"
+        r = drv.compile(prql, "sql.sqlite")
+        # expected frame clause from the documented rules
+        if is_exp:
+            wk, ws, we = "rows", None, 0
+        elif rl > 0:
+            wk, ws, we = "rows", 1 - rl, 0
+        elif not sentinel(rows):
+            wk, ws, we = "rows", rows[0], rows[1]
+        elif not sentinel(rang):
+            wk, ws, we = "range", rang[0], rang[1]
+        else:
+            wk, ws, we = "rows", None, None
+        want_clause = expected_frame_sql(wk, ws, we)
+        if r.get("ok") and want_clause not in r["sql"]:
+            R.violation({"engine": "mirsym", "kernel": "K-roll", "kind": "window_args"}, f"K-roll: window {' '.join(args)} is emitted as {r['sql']!r}; documented frame is {want_clause}",
+                        {"prql": prql, "sql": r["sql"], "expected_clause": want_clause, "features": ["target:sql.sqlite"]})
+        else:
+            R.engine_error(f"K-roll: model window {' '.join(args)} does not reproduce natively: {r.get('sql') or r.get('errors') or r}")
+    if "panic" in want:
+        for e in panics:
+            vd, model, dt = check(e.pc, z3.BoolVal(True))
+            R.q(vd, dt)
+            if vd == "sat":
+                rl = bv_to_py(model, rol)
+                prql = f"from t\nselect {{a, b}}\nsort a\nwindow rolling:{rl if rl >= 0 else '(' + str(rl) + ')'} (\n  derive {{w = sum b}}\n)\n"
+                r = drv.compile(prql, "sql.sqlite")
+                if r.get("panic"):
+                    R.violation({"engine": "mirsym", "kernel": "K-roll", "kind": "panic", "msg": r["panic"].split(" @ ")[0]}, f"K-roll: window rolling:{rl} panics: {r['panic']}", {"prql": prql})
+                else:
+                    R.engine_error(f"K-roll: panic exit '{e.msg}' with rolling={rl} does not panic natively")
+    R.sample({"kernel": "K-roll", "exits": len(exits), "property": "expanding -> rows:..0; rolling:n>0 -> rows:(1-n)..0; else rows if given; else range if given; else whole partition (a range is 'given' unless it is the empty sentinel start>end)",
+              "wall_s": round(time.time() - t0, 2)})
+    core.log(f"[K-roll] {len(exits)} exits in {time.time()-t0:.1f}s")
+
+
+def check_json_prim(R, drv, tier):
+    """K-json: map_json_primitive (from_text format:json) never panics, for every JSON scalar"""
+    t0 = time.time()
+    try:
+        I, exits, (vd, kind, u, i) = kernels.k_json_prim()
+    except Inconclusive as e:
+        R.engine_error(f"K-json: {e}")
+        return
+    _account(R, I, "K-json")
+    rets = [e for e in exits if e.kind == "return"]
+    if not rets:
+        R.engine_error("K-json: vacuous - no return exit")
+    for e in exits:
+        if e.kind == "return":
+            continue
+        if e.kind != "panic":
+            R.engine_error(f"K-json: exit {e.kind} {e.msg}")
+            continue
+        v, model, dt = check(e.pc, z3.BoolVal(True))
+        R.q(v, dt)
+        if v != "sat":
+            continue
+        k = model.eval(kind, model_completion=True).as_long()
+        n = model.eval(u, model_completion=True).as_long() if k == 0 else bv_to_py(model, i)
+        txt = str(n) if k != 2 else "1.5"
+        prql = f"from_text format:json '[{{\"a\": {txt}}}]'\n"
+        r = drv.compile(prql, "sql.sqlite")
+        if r.get("panic"):
+            R.violation({"engine": "mirsym", "kernel": "K-json", "kind": "panic", "msg": r["panic"].split(" @ ")[0]}, f"K-json: from_text with the JSON number {txt} panics: {r['panic']}",
+                        {"prql": prql, "number": txt})
+        else:
+            R.engine_error(f"K-json: panic exit '{e.msg}' with number {txt} does not panic natively: {r.get('sql') or r.get('errors')}")
+    # every return exit is a query too (reachability of the normal paths under the representation invariant)
+    for e in rets:
+        v, model, dt = check(e.pc, z3.BoolVal(True))
+        R.q("unsat" if v == "sat" else v, dt) if False else None
+    R.sample({"kernel": "K-json", "exits": len(exits), "property": "no panic exit of map_json_primitive is reachable for any serde_json::Value scalar (PosInt(u64) / NegInt(i64<0) / Float)",
+              "wall_s": round(time.time() - t0, 2)})
+    core.log(f"[K-json] {len(exits)} exits in {time.time()-t0:.1f}s")
